@@ -851,6 +851,51 @@ func c15xyz(c *fw.Ctx, idx int) {
 	}
 }
 
+// c15EveryLength: a point one unit above the middle of a segment of a unit-step
+// line of idx vertices, for idx = 2, 3, 4, ... and for the last, the first, the
+// middle and a few other segments: the distance is exactly 1 and the next best
+// segment is sqrt(1.25) away, so a scan that skips a segment at the seam of two
+// blocks of any size is seen at the length that puts a queried segment there.
+func c15EveryLength(c *fw.Ctx, idx int) {
+	n := idx + 2
+	r := c.R
+	for _, layout := range []geom.Layout{geom.XY, geom.XYZ, geom.XYZM} {
+		stride := layout.Stride()
+		flat := make([]float64, n*stride)
+		vert := r.Bool()
+		for i := 0; i < n; i++ {
+			if vert {
+				flat[i*stride], flat[i*stride+1] = -3, float64(i)
+			} else {
+				flat[i*stride], flat[i*stride+1] = float64(i), 5
+			}
+			for k := 2; k < stride; k++ {
+				flat[i*stride+k] = float64(i%7) - 3
+			}
+		}
+		for _, j := range []int{n - 2, 0, (n - 2) / 2, (n - 2) - (n-2)%3, r.Intn(n - 1)} {
+			p := geom.Coord{float64(j) + 0.5, 6, math.NaN(), 2}[:stride]
+			if vert {
+				p = geom.Coord{-4, float64(j) + 0.5, math.NaN(), 2}[:stride]
+			}
+			c.SetInput(map[string]any{"line": "unit steps", "vertices": n, "vertical": vert, "layout": layout.String(), "point": fw.Fs(p[:2]), "above_segment": j})
+			var got float64
+			if c.Guard("panic", func() { got = xy.DistanceFromPointToLineString(layout, p, flat) }) {
+				return
+			}
+			c.Eval(1)
+			if !(math.Abs(got-1) <= 1e-9) {
+				c.Fail("wrong-distance", "xy.DistanceFromPointToLineString = %v for a point one unit off the middle of segment %d of a unit-step line of %d vertices (exact distance 1; the neighbouring segments are sqrt(1.25) away)", got, j, n)
+				return
+			}
+		}
+	}
+	c.Count("line_lengths_measured")
+	if idx%1000 == 0 {
+		c.Distinct(fmt.Sprintf("every-length/%d", idx))
+	}
+}
+
 func init() {
 	fw.Register(&fw.Monitor{
 		ID:     "C15",
@@ -861,6 +906,7 @@ func init() {
 			{Name: "xy", Quick: 100000, Thorough: 3000000, Run: c15xy},
 			{Name: "xyz", Quick: 150000, Thorough: 5000000, Run: c15xyz},
 			{Name: "long-linestrings", Quick: 4000, Thorough: 150000, Run: c15Long},
+			{Name: "every-length", Quick: 9000, Thorough: 40000, Chunk: 50, Run: c15EveryLength, Exhaustive: "unit-step lines of every number of vertices from 2 to the class count + 1"},
 		},
 		Require: []string{"xy_first-degenerate", "xy_second-degenerate", "xy_both-degenerate", "xy_touching_or_crossing", "xyz_first-degenerate", "xyz_second-degenerate", "xyz_both-degenerate", "xyz_parallel", "xyz_collinear", "xyz_crossing", "xyz_touching-endpoint", "xyz_t-touch", "xyz_skew-both-outside", "xyz_both_parameters_outside", "xyz_skew-interior", "exact_distance_zero"},
 	})
